@@ -3,10 +3,13 @@ package srvworld
 import (
 	"fmt"
 	"os"
+	"runtime/pprof"
 	"sort"
+	"strconv"
 	"strings"
 	"testing"
 	"testing/synctest"
+	"time"
 
 	"github.com/pion/turn/v5/internal/zzverif/vkit"
 	"pgregory.net/rapid"
@@ -33,11 +36,41 @@ func runCase(t *testing.T, sc *Script, verbose bool) (res caseResult) {
 			panic(p)
 		}
 	}()
+	// a lock-up (a goroutine waiting for a mutex whose holder waits for something that does not
+	// come) freezes the bubble's clock for good; a wall-clock watchdog outside the bubble turns
+	// "no step finished for two minutes" into a crash report with all stacks
+	stop := make(chan struct{})
+	defer close(stop)
+	go lockupWatchdog(stop)
 	synctest.Test(t, func(t *testing.T) {
 		res.x, res.err = Run(sc, verbose)
 	})
 
 	return res
+}
+
+func lockupWatchdog(stop chan struct{}) {
+	limit := 120 * time.Second
+	if v, err := strconv.Atoi(os.Getenv("VERIF_LOCKUP_S")); err == nil && v > 0 {
+		limit = time.Duration(v) * time.Second
+	}
+	last, since := progress.Load(), time.Now()
+	tk := time.NewTicker(time.Second)
+	defer tk.Stop()
+	for {
+		select {
+		case <-stop:
+			return
+		case <-tk.C:
+		}
+		if cur := progress.Load(); cur != last {
+			last, since = cur, time.Now()
+		} else if time.Since(since) > limit {
+			fmt.Printf("fatal error: lock-up: no step of the case finished for %v of wall-clock time (goroutines that wait for a mutex cannot be woken by virtual time)\n", limit)
+			_ = pprof.Lookup("goroutine").WriteTo(os.Stdout, 1)
+			os.Exit(3)
+		}
+	}
 }
 
 // propSpec describes one property's check over the server world.
